@@ -28,6 +28,14 @@ def apply_patch():
     if rc != 0:
         rc, o = sh('git apply --3way %s && git reset -q' % patch, cwd=wt)
         res['patch_applied_three_way'] = rc == 0
+    if rc != 0:
+        # the hunks collide with a later `fix:` commit: use the hand-rebased form kept beside the original (same change, new context)
+        sh('git reset -q --hard HEAD', cwd=wt)
+        for rb in sorted(glob.glob(os.path.join(out, 'rebased-on-*.diff'))):
+            rc, o = sh('git apply %s' % rb, cwd=wt)
+            if rc == 0:
+                res['patch_applied_rebased'] = os.path.basename(rb)
+                break
     return rc == 0
 
 
@@ -61,7 +69,7 @@ res['caught_with_concrete_input'] = bool(viol) and 'no-failing-input-found' not 
 res['ran'].append('VERIF_REPO=%s ./check %s --tier quick -> exit %d %s' % (wt, pid, rc, viol[0] if viol else '(no VIOLATION line)'))
 d = os.path.join(ROOT, 'seeded', tag)
 os.makedirs(d, exist_ok=True)
-for f in ('patch.diff', 'demo.cpp', 'demo.sh'):
+for f in ['patch.diff', 'demo.cpp', 'demo.sh'] + [os.path.basename(x) for x in glob.glob(os.path.join(out, 'rebased-on-*.diff'))]:
     if os.path.exists(os.path.join(out, f)):
         shutil.copy(os.path.join(out, f), d)
 meta = {}
